@@ -552,7 +552,7 @@ func parallelWalkDepth(ctx context.Context, getLinks GetLinks, root cid.Cid, vis
 				if shouldVisit {
 					links, err := getLinks(ctx, ci)
 					if err != nil && options.ErrorHandler != nil {
-						err = options.ErrorHandler(root, err)
+						err = options.ErrorHandler(ci, err)
 					}
 					if err != nil {
 						select {
@@ -564,9 +564,9 @@ func parallelWalkDepth(ctx context.Context, getLinks GetLinks, root cid.Cid, vis
 
 					// Successfully fetched "ci". Provide it when needed,
 					if prov := options.Provider; prov != nil {
-						log.Debugf("merkledag: provide %s", root)
-						if err := prov.StartProviding(false, root.Hash()); err != nil {
-							log.Warnf("merkledag: error while providing %s: %s", root, err)
+						log.Debugf("merkledag: provide %s", ci)
+						if err := prov.StartProviding(false, ci.Hash()); err != nil {
+							log.Warnf("merkledag: error while providing %s: %s", ci, err)
 						}
 					}
 					outLinks := linksDepth{
